@@ -94,7 +94,7 @@ def reference_resolution_rule(ctx, prop, rid):
     resolved against the tree from the referrer's node.  It must reach the target, and it is relative exactly when the
     target's innermost enclosing repeat also encloses the referrer."""
     from .. import trees
-    r = Rule(prop, rid, "references resolve to the named question on bounded trees", floor=80,
+    r = Rule(prop, rid, "references resolve to the named question on bounded trees", floor=60,
              necessary="a path that does not reach the target (or is absolute inside the shared repeat) reads another node's value")
     scls = ctx.repo.cls("pyxform.survey:Survey")
     ix = scls.methods["insert_xpaths"]
